@@ -7,6 +7,7 @@ import (
 	"errors"
 	"fmt"
 	"io"
+	"io/ioutil"
 	"strings"
 	"time"
 
@@ -85,22 +86,19 @@ func (t WebsocketTransport) StartStream() (string, error) {
 // to process incoming control frames.
 func (t WebsocketTransport) startReader() {
 	go func() {
-		buffer := make([]byte, maxPacketSize)
 		for {
 			_, reader, err := t.wsConn.Reader(t.closeCtx)
 			if err != nil {
 				return
 			}
-			n, err := reader.Read(buffer)
-			if err != nil && err != io.EOF {
+			// Read the message to its end: it may come in several frames, and a single Read only
+			// returns what has arrived so far. (Its size is bounded by the read limit set in Connect.)
+			data, err := ioutil.ReadAll(reader)
+			if err != nil {
 				return
 			}
-			if n > 0 {
-				// We need to make a copy, otherwise we will overwrite the slice content
-				// on the next iteration of the for loop.
-				tmp := make([]byte, n)
-				copy(tmp, buffer)
-				t.queue <- tmp
+			if len(data) > 0 {
+				t.queue <- data
 			}
 		}
 	}()
